@@ -60,8 +60,8 @@ Proof.
   - split_hyp H; inv_ok H; fin_tk T tk.
   - split_hyp H; inv_ok H; fin_tk T tk.
   - split_hyp H; inv_ok H; fin_tk T tk.
+  - destruct second; split_hyp H; inv_ok H; fin_tk T tk.
   - split_hyp H; inv_ok H; fin_tk T tk.
-  - split_hyp H; [split_hyp H|]; inv_ok H; fin_tk T tk.
   - inv_ok H; fin_tk T tk.
   - inv_ok H; fin_tk T tk.
   - inv_ok H; fin_tk T tk.
@@ -233,18 +233,6 @@ Lemma quiescent_zero u s T : reach step1 (init u) s -> qcount T (queue (sh s)) =
   (forall th f, In th (threads s) -> In f (stk th) -> contrib T f = 0) -> outst (sets (sh s) T) = 0.
 Proof. intros R. apply counts_quiescent. apply (outstanding_counts u s R). Qed.
 
-(* the unlicensed body call sites (6, 9) arise exactly from the second inline fallback: pool overloaded, !skipRecheck, canInlineSchedule --
-   whatever canceled_ holds *)
-Lemma inline2_only_in_domain s th T k b skip placed rest c s' T' k' b' site lic g rest' e :
-  step_top s th (FCsPool T k b skip placed) rest c = Some (s', FRawPt T' k' b' site lic g :: rest', e) ->
-  negb skip && dec_overloaded (tpool th) (wr s) (nthr s) (plf s) (prlf s) && can_inline th rest = true /\
-  (site = 6 \/ site = 9) /\ lic = 0 /\ T' = T /\ s' = s.
-Proof.
-  cbn [step_top]. destruct (negb skip && dec_overloaded (tpool th) (wr s) (nthr s) (plf s) (prlf s)) eqn:A; [|intros H; discriminate].
-  destruct (can_inline th rest) eqn:B; [|intros H; discriminate]. intros H. injection H as <- <- _ _ <- <- _ _ _.
-  repeat split; auto. destruct placed; auto.
-Qed.
-
 Lemma throw_preserves_accounting u s T : reach step1 (init u) s ->
   outst (sets (sh s) T) = qcount T (queue (sh s)) + tsum (contrib T) (threads s) /\
   (qcount T (queue (sh s)) = 0 -> (forall th f, In th (threads s) -> In f (stk th) -> contrib T f = 0) -> outst (sets (sh s) T) = 0).
@@ -254,14 +242,11 @@ Lemma force_dispatch_both s T skip b n c s' fr e :
   (dispatch s (OBulk T true n b) c = (s', fr, e) -> forallb force_frame fr = true /\ no_body_event e).
 Proof. split; [apply force_dispatch | apply force_dispatch_bulk]. Qed.
 
-(* ---------- the C04 refutation witness: cancel(); schedule(f) on a ConcurrentTaskSet with workRemaining_ 40 > poolLoadFactor_ 32 ---------- *)
+(* ---------- C04 regression: the former refutation witness.  cancel(); schedule(f) on a ConcurrentTaskSet with workRemaining_ 40 >
+   poolLoadFactor_ 32: after the fix the second fallback loads canceled_ (true), packages and queues; no body starts ---------- *)
 Definition c04_witness : setup := SU [TC true false 4 []] [] 40 1 32 3 0 [] [([OCancel 0; OSched 0 false false []], false, 0)].
-Lemma c04_refuted_reach :
-  exists s th k b rest, reach step1 (init c04_witness) s /\ In th (threads s) /\ stk th = FRawPt 0 k b 6 0 true :: rest /\
-    canc (sets (sh s) 0) = true /\ 0 < cst (sets (sh s) 0) /\ In (t_c, 0, cst (sets (sh s) 0)) (res th) /\
-    lic_of (FRawPt 0 k b 6 0 true) = None.
-Proof.
-  pose proof (run_ts_reach 4 c04_witness [0; 0; 0]) as R.
-  remember (run_ts 4 c04_witness [0; 0; 0]) as r eqn:E. vm_compute in E. subst r. cbn [fst] in R.
-  eexists _, _, _, _, _. split; [exact R|]. cbn. split; [left; reflexivity|]. repeat split; try reflexivity. left. reflexivity.
-Qed.
+Lemma c04_regression :
+  let '(s, tr, st) := run_ts 20 c04_witness [0; 0; 0; 0; 0; 0; 0; 0] in
+  st = SDone /\ map snd tr = [0; sc 42 0; sc 4 0; sc 1 0; sc 10 0] /\ length (queue (sh s)) = 1%nat /\ ledger (sh s) 1 = LPend 0 /\
+  existsb (fun e => fst (fst e) =? t_b) (res (nth 0 (threads s) (TH [] [] false 0))) = false.
+Proof. vm_compute. repeat split; reflexivity. Qed.
